@@ -288,12 +288,64 @@ RULES['C03'] = lambda an, res: (rules_seq.rule_c03(an, res), rules_seq.rule_c02_
 CHECKS = {'C01': c01, 'C08': c08, 'C18': c18, 'C20': c20, 'C11': c11, 'C14': c14, 'C15': c15, 'C10': c10, 'C12': c12, 'C13': c13, 'C04': c04, 'C05': c05, 'C16': c16, 'C17': c17, 'C02': c02, 'C03': c03, 'C06': c06, 'C07': c07, 'C09': c09, 'C19': c19}
 
 
-ALT_INSTANCES = [dict(ts='no'), dict(ts='yes', K='std::string', V='unsigned long', alt=True), dict(ts='no', K='std::string', V='std::string')]
+ALT_INSTANCES = [dict(ts='no'), dict(ts='yes', K='std::string', V='unsigned long', alt=True), dict(ts='no', K='std::string', V='std::string'),
+                 dict(ts='yes', K='unsigned long', V='capcheck_driver::awkward_value')]
 RULE_FN = {}
+
+
+AWKWARD = dict(ts='yes', K='unsigned long', V='capcheck_driver::awkward_value')
+
+
+def type_dispatch(repo):
+    """does the library select code by properties of the key / value type (if constexpr, type traits, enable_if, overloads on
+    trivially-/nothrow-...)?  Then a single instantiation does not speak for every value type."""
+    import re
+    inc = os.path.join(repo, 'inc', 'cappuccino')
+    pat = re.compile(r'std::is_\w+|\w_v\s*<|enable_if|std::conditional|^\s*requires\b|if\s+constexpr\s*\((?![^)]*thread_safe)', re.M)
+    try:
+        for f in sorted(os.listdir(inc)):
+            if not f.endswith('.hpp'):
+                continue
+            src = open(os.path.join(inc, f), errors='replace').read()
+            src = re.sub(r'//[^\n]*|/\*.*?\*/', '', src, flags=re.S)      # comments do not dispatch
+            if pat.search(src):
+                return True
+    except OSError:
+        pass
+    return False
+
+
+def merge_instance(pid, res, repo, kw):
+    from report import Result
+    try:
+        an = analysis(repo, **kw)
+    except Exception as e:      # front-end failure on an alternative instantiation
+        res.incomplete.append('alternative instantiation %r: %s' % (kw, str(e)[:300]))
+        return 0
+    fn = RULES.get(pid)
+    if fn is None:
+        return 0
+    sub = Result(pid, res.level)
+    fn(an, sub)
+    res.obligations += sub.obligations
+    res.discharged += sub.discharged
+    for k, v in sub.rules.items():
+        r = res.rules.setdefault(k, [0, 0])
+        r[0] += v[0]
+        r[1] += v[1]
+    for v in sub.violations:
+        v.message += ' [instantiation %s]' % ','.join('%s=%s' % kv for kv in sorted(kw.items()))
+        res.violate(v)
+    res.incomplete += [x for x in an.incomplete if x not in res.incomplete]
+    return 1
 
 
 def run(pid, tier, repo, replay=None):
     res = CHECKS[pid](tier, repo)
+    if tier != 'thorough' and pid not in ('C06', 'C07') and type_dispatch(repo):
+        # code selected by traits of the value type: also analyse a value type with throwing, non-trivial copy / move operations
+        if merge_instance(pid, res, repo, AWKWARD):
+            res.counts['type_dispatch_instantiation'] = 1
     if tier == 'thorough':
         thorough_extras(pid, res, repo)
     return res
